@@ -166,7 +166,8 @@ def gen_trees(rng, malformed=False):
             net_keys = [nk for nk in net_keys if nk[0] != net]
         elif kind == "leaf-root":
             routes[rng.randrange(len(routes))][1] = g.leaf()
-    return dict(kind="trees", routes=routes, net_keys=net_keys, wf=kind, share=share, classes=classes)
+    return dict(kind="trees", routes=routes, net_keys=net_keys, wf=kind, share=share, classes=classes,
+                build=rng.choice(["bottom-up", "bottom-up", "top-down", "top-down", "tuple"]))
 
 
 # ====================================================================== generator (ii): loads
@@ -271,8 +272,17 @@ def gen_load(rng, size=None, malformed=False):
         elif wf == "small-buf":
             chips[0][2]["bufsize"] = 16 * max(0, len(es) - 1)
     mode = "tables" if multi or rng.random() < 0.3 else "entries"
+    # a third of the loads hand over entries whose route is a list / tuple that may name a direction several
+    # times (namedtuple _replace / _make bypass the constructor's frozenset; duck-typed entry objects)
+    form = rng.choice(["set", "set", "set", "set", "replace-list", "make-tuple", "duck"]) if wf == "valid" else "set"
+    if form != "set":
+        for _, es in tables:
+            for e in es:
+                if e[0] and rng.random() < 0.7:
+                    e[0] = e[0] + [rng.choice(e[0]) for _ in range(rng.randint(1, 3))]
+                    rng.shuffle(e[0])
     return dict(kind="load", chips=chips, tables=tables, app_id=app_id, mode=mode,
-                context=rng.random() < 0.3, wf=wf, sub_entries=rng.random() < 0.3)
+                context=rng.random() < 0.3, wf=wf, sub_entries=rng.random() < 0.3, route_form=form)
 
 
 # ====================================================================== generator (iii): histories
@@ -620,7 +630,7 @@ def oracle_trees(c, out):
 
 def route_word(routes):
     w = 0
-    for r in routes:
+    for r in set(routes):          # the router holds exactly the named directions, however often named
         w += 2 ** r
     return w
 
@@ -830,6 +840,7 @@ def run(chk, args):
         if c["kind"] == "trees":
             chk.count("trees:outcome:" + o[0])
             chk.count("trees:entry:" + c.get("entry", "r2t"))
+            chk.count("trees:build:" + c.get("build", "bottom-up"))
             chk.count("trees:share:" + c["share"])
             chk.count("trees:classes:" + c.get("classes", "plain"))
             chk.count("trees:subclass-nodes:" + ("0" if not any(len(n) > 3 and n[3] for _, t in c["routes"]
@@ -853,6 +864,7 @@ def run(chk, args):
             if isinstance(o, dict):
                 chk.count("load:outcome:" + o["outcome"][0])
                 chk.count("load:mode:" + c["mode"])
+                chk.count("load:route-form:" + c.get("route_form", "set"))
                 n = sum(len(es) for _, es in c["tables"])
                 chk.count("load:entries:" + ("0" if n == 0 else "1" if n == 1 else "2-99" if n < 100
                                              else "100-1022" if n < 1023 else str(n) if n < 1025 else ">1024"))
